@@ -39,18 +39,25 @@ class _dtype_value_context:
         self._instance_double_value = double_value
         self._orig_half_value = self.__class__.value(dtype=torch.half)
         self._instance_half_value = half_value
+        self._prev_values = []
 
     def __enter__(
         self,
     ):
-        self.__class__._set_value(
+        # Remember the values in force right now (not at construction time), one entry per (possibly nested) entry
+        cls = self.__class__
+        self._prev_values.append((cls._global_float_value, cls._global_double_value, cls._global_half_value))
+        self._orig_float_value, self._orig_double_value, self._orig_half_value = self._prev_values[-1]
+        cls._set_value(
             self._instance_float_value,
             self._instance_double_value,
             self._instance_half_value,
         )
 
     def __exit__(self, *args):
-        self.__class__._set_value(self._orig_float_value, self._orig_double_value, self._orig_half_value)
+        # Restore unconditionally (a previous value of None means "unset" and must come back as None)
+        cls = self.__class__
+        cls._global_float_value, cls._global_double_value, cls._global_half_value = self._prev_values.pop()
         return False
 
 
@@ -83,12 +90,16 @@ class _feature_flag:
     def __init__(self, state=True):
         self.prev = self.__class__._state
         self.state = state
+        self._prev_states = []
 
     def __enter__(self):
+        # Remember the state in force right now (not at construction time), one entry per (possibly nested) entry
+        self._prev_states.append(self.__class__._state)
+        self.prev = self._prev_states[-1]
         self.__class__._set_state(self.state)
 
     def __exit__(self, *args):
-        self.__class__._set_state(self.prev)
+        self.__class__._set_state(self._prev_states.pop())
         return False
 
 
@@ -106,14 +117,18 @@ class _value_context:
     def __init__(self, value):
         self._orig_value = self.__class__.value()
         self._instance_value = value
+        self._prev_values = []
 
     def __enter__(
         self,
     ):
+        # Remember the value in force right now (not at construction time), one entry per (possibly nested) entry
+        self._prev_values.append(self.__class__.value())
+        self._orig_value = self._prev_values[-1]
         self.__class__._set_value(self._instance_value)
 
     def __exit__(self, *args):
-        self.__class__._set_value(self._orig_value)
+        self.__class__._set_value(self._prev_values.pop())
         return False
 
 
